@@ -239,20 +239,38 @@ def process_unit(unit, seed=None, rlimit=None):
             r['undecided'].append('rlimit/tool: ' + c['message'][:300])
         else:
             r['failures'].append(c)
-    if r['failures'] and not r['undecided']:
-        # brittleness filter: a semantic failure must reproduce with another solver seed and 4x the resource limit
+    only_rlimit = r['undecided'] and all(x.startswith('rlimit/tool') for x in r['undecided'])
+    if (r['failures'] and not r['undecided']) or only_rlimit:
+        # brittleness filter: a semantic failure must reproduce with another solver seed and 4x the resource limit;
+        # a resource-limit failure is retried twice with 4x the limit and counts only if both retries agree on a semantic failure
+        def sem(vx):
+            out = {}
+            for d in vx['diags']:
+                if d.get('level') == 'error' and not d.get('message', '').startswith('aborting'):
+                    c2 = classify(d, meta, path)
+                    if 'vacuity_canary' in (c2['rendered'] or ''):
+                        continue
+                    out[(c2['fn'], c2['kind'], c2['line'])] = c2
+            return out
         v2 = run_verus(path, rlimit=(rlimit or 10) * 4, seed=(seed or 0) + 7919)
         r['wall'] += v2['wall']
-        keys2 = set()
-        for d in v2['diags']:
-            if d.get('level') == 'error' and not d.get('message', '').startswith('aborting'):
-                c2 = classify(d, meta, path)
-                keys2.add((c2['fn'], c2['kind'], c2['line']))
-        stable = [c for c in r['failures'] if (c['fn'], c['kind'], c['line']) in keys2]
-        for c in r['failures']:
-            if c not in stable:
-                r['undecided'].append('unstable proof: %s in %s (line %s) failed once but not with seed+7919 / rlimit x4' % (c['kind'], c['fn'], c['line']))
-        r['failures'] = stable
+        k2 = sem(v2)
+        if only_rlimit:
+            v3 = run_verus(path, rlimit=(rlimit or 10) * 4, seed=(seed or 0) + 104729)
+            r['wall'] += v3['wall']
+            k3 = sem(v3)
+            r['undecided'] = []
+            both = [k for k in k2 if k in k3]
+            if any(c['kind'] in ('rlimit', 'frontend') for c in list(k2.values()) + list(k3.values())):
+                r['undecided'].append('rlimit/tool: resource limit exceeded even at 4x the limit')
+            r['failures'] = [k2[k] for k in both if k2[k]['kind'] not in ('rlimit', 'frontend')]
+            r['functions'] = fn_results(v2['json']) or r['functions']
+        else:
+            stable = [c for c in r['failures'] if (c['fn'], c['kind'], c['line']) in k2]
+            for c in r['failures']:
+                if c not in stable:
+                    r['undecided'].append('unstable proof: %s in %s (line %s) failed once but not with seed+7919 / rlimit x4' % (c['kind'], c['fn'], c['line']))
+            r['failures'] = stable
     if v['json'] is None or vr.get('encountered-vir-error') or (v['rc'] != 0 and not v['diags']):
         r['undecided'].append('verus produced no result (rc=%s): %s' % (v['rc'], ' | '.join(v['raw'][:5])[:500]))
     # canary: a function named vacuity_canary_* must fail
